@@ -36,23 +36,47 @@ def nv(xs):
     return "-" if not xs else ",".join(str(int(x)) for x in xs)
 
 
+DIM_NAMES = {1: lambda d, D: f"input_dim_{D - 1 - d}", 2: lambda d, D: ["time", "depth", "z", "a"][d % 4]}
+
+
+def dim_name(d, D, g):
+    """Name of dimension d of D for the tag g: (g // 24) % 3 = 0 `input_dim_d`; 1 the same names inserted in REVERSE
+    (non-sorted) order; 2 arbitrary names ('time', 'depth', 'z')."""
+    naming = (g // 24) % 3
+    return f"input_dim_{d}" if naming == 0 or D < 2 else DIM_NAMES[naming](d, D)
+
+
+def _scaled(u, g):
+    """Coordinate scale / offset of the tag: g // 72 = 0 around the origin; 1 hourly Unix time stamps (1.7e9 + 3600 u);
+    2 years (2020 + u / 500); 3 tiny units (1e-9 u)."""
+    sc = g // 72
+    if sc == 1:
+        return 1.7e9 + 3600.0 * u
+    if sc == 2:
+        return 2020.0 + u / 500.0
+    if sc == 3:
+        return 1e-9 * u
+    return u
+
+
 def grid(m, g):
     """m points tagged g.  g % 8 = which translate of 0..m-1 (interior points moved a little further, so that
-    the *normalised* grid depends on it too: a stale `argvals_stand` is visible); g // 8 = style:
-    0 strictly increasing, 1 with a REPEATED point (m >= 3), 2 UNSORTED (first and last swapped, m >= 2)."""
-    base, style = g % 8, g // 8
+    the *normalised* grid depends on it too: a stale `argvals_stand` is visible); (g // 8) % 3 = style:
+    0 strictly increasing, 1 with a REPEATED point (m >= 3), 2 UNSORTED (first and last swapped, m >= 2);
+    g // 72 = coordinate scale / offset (see `_scaled`)."""
+    base, style = g % 8, (g // 8) % 3
     t = np.arange(m, dtype=float) + base / 8.0
     t[1:-1] += base / 16.0
     if style == 1 and m >= 3:
         t[2] = t[1]
     elif style == 2 and m >= 2:
         t[0], t[-1] = t[-1], t[0]
-    return t
+    return _scaled(t, g)
 
 
 def style_ok(pts, g):
     """Can the style of tag g be realised (and read back) on grids with these numbers of points?"""
-    style = g // 8
+    style = (g // 8) % 3
     return style == 0 or (style == 1 and all(m >= 3 for m in pts) and len(pts) > 0) or (style == 2 and all(m >= 2 for m in pts) and len(pts) > 0)
 
 
@@ -180,7 +204,7 @@ def parse_arg(tk: Tokens):
     k = tk.next()
     if k == "da":
         pts, g = natvec(tk.next()), int(tk.next())
-        return lambda: A.DenseArgvals({f"input_dim_{d}": grid(m, g) for d, m in enumerate(pts)})
+        return lambda: A.DenseArgvals({dim_name(d, len(pts), g): grid(m, g) for d, m in enumerate(pts)})
     if k == "ia":
         n = int(tk.next())
         obs = []
@@ -262,18 +286,38 @@ def _join(sep, xs):
     return "-" if not xs else sep.join(xs)
 
 
+def _unscale(t):
+    lo = float(np.min(t))
+    if lo >= 1e9:
+        return (t - 1.7e9) / 3600.0, 1
+    if 2000.0 < lo < 3000.0:
+        return (t - 2020.0) * 500.0, 2
+    if 0 <= lo and float(np.max(t)) < 1e-6 and float(np.max(t)) > 0:
+        return t / 1e-9, 3
+    return t, 0
+
+
 def _gtag(dense_argvals):
+    keys = list(dense_argvals.keys())
+    D = len(keys)
+    naming = 0
+    if D >= 2:
+        if keys == [DIM_NAMES[1](d, D) for d in range(D)]:
+            naming = 1
+        elif keys == [DIM_NAMES[2](d, D) for d in range(D)]:
+            naming = 2
     for t in dense_argvals.values():
         t = np.asarray(t, dtype=float)
         if len(t):
-            base = int(round(float(np.min(t)) * 8))
+            u, sc = _unscale(t)
+            base = int(round(float(np.min(u)) * 8))
             style = 0
             if len(t) >= 3 and np.any(np.diff(t) == 0):
                 style = 1
             elif len(t) >= 2 and t[0] > t[-1]:
                 style = 2
-            return base + 8 * style
-    return 0
+            return base + 8 * style + 24 * naming + 72 * sc
+    return 24 * naming
 
 
 def _rtag(arr):
